@@ -16,7 +16,8 @@ def handlers : List (String → List String → Option String) := [
   Crc.handle?,
   Cell.handle?,
   Builder.handle?,
-  Sig.handle?
+  Sig.handle?,
+  Adnl.handle?
 ]
 
 def handle (op : String) (args : List String) : String :=
